@@ -34,6 +34,11 @@ def capball(rng, level=1):
     mirrored = rng.random() < 0.6
     if mirrored: vs, ts = mirror_mesh(vn, tn, ax)
     else: vs, ts = models.submesh(v0, t0, lambda t: all(v0[a][ax] <= eps for a in t))
+    seam = (not mirrored) and rng.random() < 0.5
+    if seam:
+        # files "written by two tools": the rim vertices of the south cap differ from those of the north cap by ~1e-12 in every
+        # coordinate (not bit-identical, so they are NOT shared: 4 more vertices per rim, in every frame)
+        vs = [tuple(c + (rng.choice((-1, 1)) * rng.uniform(0.8e-12, 1.2e-12) if abs(v[ax]) <= eps else 0.0) for c in v) for v in vs]
     meshes = [("north", vn, tn), ("south", vs, ts)]
     interfaces = [("Skin", [(+1, "north"), (+1, "south")])]
     core = rng.random() < 0.6
@@ -46,7 +51,7 @@ def capball(rng, level=1):
         domains = [("BALL", [(-1, "Skin")]), ("Air", [(+1, "Skin")])]; cond = {"BALL": sig(), "Air": 0.0}
     return dict(meshes=meshes, interfaces=interfaces, domains=domains, cond=cond,
                 info=dict(kind="capball", topology="capball", centre=(0, 0, 0), level=level, outer_radius=1.0, core=core, outer_mesh="south",
-                          cut_axis="xyz"[ax], mirrored=mirrored))
+                          cut_axis="xyz"[ax], mirrored=mirrored, seam=seam))
 
 def mirror_mesh(verts, tris, ax):
     """the mirror image of a mesh through the coordinate plane x_ax = 0 (winding swapped so that it stays outward).  The
